@@ -10,7 +10,7 @@ import numpy as np
 from mc import core
 from mc.core import Judgement, Recorder
 from mc.explore import Chooser, explore
-from mc.harness import AffineEnsemble, TableEvaluator, make_manager
+from mc.harness import AffineEnsemble, TableEvaluator, make_manager, scipy_entry_points
 
 PROPERTY = "C15"
 RULE = (
@@ -270,17 +270,14 @@ def run_basic(variant: dict[str, Any], chooser: Chooser) -> dict[str, Any]:
         "optimizer": {"method": "slsqp"},
         "gradient": {"number_of_perturbations": 2},
     }
-    orig = plugin.minimize
-    plugin.minimize = driver
     try:
-        opt = BasicOptimizer(config, evaluator).set_abort_callback(callback)
-        opt.run()
+        with scipy_entry_points(driver):
+            opt = BasicOptimizer(config, evaluator).set_abort_callback(callback)
+            opt.run()
         out["codes"].append(opt.exit_code)
         out["results_present"] = opt.results is not None
     except Exception as exc:  # noqa: BLE001
         out["exception"] = type(exc).__name__
-    finally:
-        plugin.minimize = orig
     out["evaluations"] = len(evaluator.calls)
     return out
 
